@@ -64,7 +64,8 @@ impl<'a> G<'a> {
         format!("{tag}{base}{}{mid}{tail}", self.counter)
     }
     fn field(&mut self) -> String {
-        if self.non_ascii && self.rng.chance(1, 3) { format!("f{}{}", self.rng.pick(NON_ASCII_BITS), if self.rng.chance(1, 6) { "" } else { "z" }) }
+        // a non-ASCII alphanumeric is an ordinary field-name character (first, middle or last)
+        if self.rng.chance(if self.non_ascii { 2 } else { 1 }, 6) { match self.rng.below(4) { 0 => self.rng.pick(NON_ASCII_BITS).to_string(), 1 => format!("f{}", self.rng.pick(NON_ASCII_BITS)), 2 => format!("{}z", self.rng.pick(NON_ASCII_BITS)), _ => format!("f{}{}z", self.rng.pick(NON_ASCII_BITS), self.rng.pick(NON_ASCII_BITS)) } }
         else if self.sloppy && self.rng.chance(1, 10) { "0a".to_string() }
         else { self.rng.pick(&["a", "peer", "arr", "n_1", "x-y", "a0", "msg", "error_code", "-", "_"]).to_string() }
     }
@@ -532,6 +533,7 @@ pub fn witnesses() -> Vec<&'static str> {
         "(seq (call \"p\" (\"s\" \"f\") [] y) (seq (fold y i (seq (null) (next i))) (call i (\"s\" \"f\") [])))",
         "(seq (call \"p\" (\"s\" \"f\") [] y) (match x 1 (fold y x (seq (call x (\"s\" \"f\") []) (next x)))))",
         "(seq (call \"p\" (\"s\" \"f\") [] y) (seq (fold y i (seq (null) (next i))) (next i)))",
+        // the panic repaired in 5981066 (now an undefined-variable error; a panic would be a violation)
         "(call \"p\" (\"s\" \"f\") [x.$.é])",
     ]
 }
@@ -555,6 +557,7 @@ pub fn fixed_texts() -> Vec<(&'static str, String)> {
               "(call \"p\" (\"s\" \"f\") [x.$.a..b])", "(call \"p\" (\"s\" \"f\") [x.$..a])", "(call \"p\" (\"s\" \"f\") [x.$.[a.b]])", "(call \"p\" (\"s\" \"f\") [x.$.[[0]]])", "(call \"p\" (\"s\" \"f\") [x.$.a(b)])", "(call \"p\" (\"s\" \"f\") [x.$.a,b])", "(call \"p\" (\"s\" \"f\") [x.$.\"a\"])",
               "(call \"p\" (\"s\" \"f\") [x.length])", "(call \"p\" (\"s\" \"f\") [x.lengthy])", "(call \"p\" (\"s\" \"f\") [x.length!])", "(call \"p\" (\"s\" \"f\") [x.$.length])", "(call \"p\" (\"s\" \"f\") [x.$.aéb])", "(call \"p\" (\"s\" \"f\") [x.$.éb])", "(call \"p\" (\"s\" \"f\") [x.$.bé])",
               "(call \"p\" (\"s\" \"f\") [x.$.[é]])", "(call \"p\" (\"s\" \"f\") [x.$.[éa]])", "(call \"p\" (\"s\" \"f\") [x.$.é!])", "(call \"p\" (\"s\" \"f\") [x.$.[.é])", "(call \"p\" (\"s\" \"f\") [x.$.]é])", "(call \"p\" (\"s\" \"f\") [x.$.[0]é])", "(call \"p\" (\"s\" \"f\") [x.$.٣])", "(call \"p\" (\"s\" \"f\") [x.$.[٣]])",
+              "(seq (call \"p\" (\"s\" \"f\") [] é) (call \"p\" (\"s\" \"f\") [é.$.é é.$.[é] é.$.é.[é]! é.$.٣ é.$.aé٣ é.$.[0]é é.$.é[0].ß é.$.名! é.$.½ é.$.-é é.$._ª]))", "(seq (canon \"p\" $s #éc) (fold #éc.$.é ïi (seq (ap ïi.$.[ïi].名 $s) (next ïi))))",
               "(call \"p\" (\"s\" \"f\") [#a.$.[0]])", "(call \"p\" (\"s\" \"f\") [#ab.$.[0]])", "(call \"p\" (\"s\" \"f\") [#$a.$.[0]])", "(call \"p\" (\"s\" \"f\") [$a.$.[0]])", "(call \"p\" (\"s\" \"f\") [$ab.$.[0]])", "(call \"p\" (\"s\" \"f\") [%ab.$.k])", "(call \"p\" (\"s\" \"f\") [#.x])", "(call \"p\" (\"s\" \"f\") [$.x])",
               "(call \"p\" (\"s\" \"f\") [9223372036854775807])", "(call \"p\" (\"s\" \"f\") [9223372036854775808])", "(call \"p\" (\"s\" \"f\") [-9223372036854775808])", "(call \"p\" (\"s\" \"f\") [-9223372036854775809])", "(call \"p\" (\"s\" \"f\") [+9223372036854775807])",
               "(call \"p\" (\"s\" \"f\") [000000000000000000000000000000000000001])", "(call \"p\" (\"s\" \"f\") [99999999999999999999999999999999999999])", "(call \"p\" (\"s\" \"f\") [1.])", "(call \"p\" (\"s\" \"f\") [1.5.2])", "(call \"p\" (\"s\" \"f\") [1.5x])", "(call \"p\" (\"s\" \"f\") [1e5])", "(call \"p\" (\"s\" \"f\") [1.5e5])",
@@ -617,7 +620,7 @@ pub fn round(rng: &mut Rng, thorough: bool, round_no: u64) -> Vec<(&'static str,
     let fancy = rng.chance(1, 3);
     out.push(("valid-full-grammar", strict.text(rng, fancy), Some(true)));
     let na = gen_script(rng, false, true, budget);
-    out.push(("non-ascii-names", na.text(rng, true), None));
+    out.push(("non-ascii-names", na.text(rng, true), Some(true)));
     // sloppy
     let sl_na = rng.chance(1, 5); let sl = gen_script(rng, true, sl_na, budget);
     out.push(("sloppy-names", sl.text(rng, false), None));
